@@ -670,7 +670,11 @@ def array_ufunc(ufunc, method, inputs, out, kwargs):
         if ufunc in (np.maximum, np.minimum, np.fmax, np.fmin):
             nm = 'maximum' if ufunc in (np.maximum, np.fmax) else 'minimum'
             sd0 = next((s for s in sds if s is not None), None)
-            r = _elementwise(lambda a, b: getattr(_lift_for_method(a, sd0), nm)(_lift_for_method(b, sd0)), *pin)
+            def mm(a, b):
+                if isinstance(a, F64) or isinstance(b, F64):      # binary64 operands: the other side (python number / exact constant) is lifted to binary64
+                    return getattr(F64.lift(a), nm)(F64.lift(b))
+                return getattr(_lift_for_method(a, sd0), nm)(_lift_for_method(b, sd0))
+            r = _elementwise(mm, *pin)
             return _apply_shadow(r, shadow_dtype(ufunc, inputs, {}))
         if ufunc is np.sign:
             r = _elementwise(lambda a: a.sign() if isinstance(a, Dual) else (S.as_sc(a).sign() if not isinstance(a, BVS) else a), *pin)
